@@ -72,6 +72,14 @@ def gen_ops(rng, tier):
     for n in lens:
         ops.append("iccw %d %d" % (n, rng.randrange(1 << 20)))
     ops.append("iccw 0 5")
+    # the same header read through a suspending data source, with the input cut at every byte position: saved markers, ICC profile and
+    # the JFIF fields must not depend on the cut
+    for i in range(60 if big else 10):
+        nm = rng.randint(0, 4)
+        ms = []
+        for _ in range(nm):
+            ms += [rng.choice([0xFE, 0xE1, 0xE3, 0xED, 0xEE, 0xE0, 0xE2]), rng.choice([0, 1, 2, 5, 37, 300, rng.randint(0, 1500)])]
+        ops.append("msusp %d %d %d %s" % (rng.randrange(1 << 30), rng.choice([0, 0, 1, 200, 1500]), nm, " ".join(map(str, ms))))
     for i in range(1500 if big else 300):
         ops.append(iccr_op(rng))
     # saved markers
